@@ -14,6 +14,10 @@ CHECKS = {
    "exhaustive enumeration of operation sequences on a replica's mount: full rollback and WAL transaction scripts continued past refusals with every extra mutating operation inserted at every position; digest compared after every operation",
    "On a connected, caught-up replica the 28-step rollback script (with and without a left-over journal) and the 23-step WAL script are run through the real FUSE handlers with each of 35 extra operations (writes of every alignment, truncates, journal/WAL/SHM create-write-truncate-unlink, lock and unlock incl. the WAL capture trigger, database unlink, /import to the replica, a primary commit) inserted at every position; after every single operation the replica's position, logical image and LTX directory contents must be unchanged, page/journal/WAL writes must fail with EACCES, and modes must be 0444/0555 on the replica vs 0666/0777 on the primary; the position moves only when the primary commits.",
    "Handler methods are called directly (no kernel permission check). The part of C07 about authority lost in the middle of a commit needs the schedule engine and is not claimed by this check yet.", "§4 C07"),
+ "C09": ("model_checking", "E1-histories",
+   "chain monitor at every state of every cluster search plus a dedicated explicit-state BFS over retention histories with a removed-set oracle per sweep",
+   "Dedicated BFS (depth 4 quick / 5 thorough) over commits, monotone ageing of LTX files, high-water-mark settings around the current TXID, sweeps with retention 0 / 1 ns / 10 min on primary and replica, with and without a backup client, partitions, restarts, drops, re-creation, import and a lagging replica behind a trimmed log: every sweep's removed set must exclude the newest file, contain only files older than the period, and with a backup client only files below the high-water mark; the chain monitor (contiguity, pre=post linkage, per-file CRC, end = DB.Pos(), no temporary file listed, snapshot leaves only itself) is evaluated on every node at every state.",
+   "Same lab as C01. Sweep racing commit/stream at lock granularity is not claimed here.", "§4 C09"),
  "C12": ("model_checking", "E1-closure+fake-clock",
    "explicit-state BFS to closure over the real RWMutex (private-state key) vs POSIX one-byte model; exhaustive blocking-variant matrix on the synctest fake clock",
    "Every operation from every reachable state of one real RWMutex with four guards is executed and compared with the reader/writer rules (20 states x 20 operations, closure reached); blocking Lock/RLock are decided for every holder/waiter/event/timing combination on a fake clock. Complete for the stated alphabet, which is the property's own quantifier.",
